@@ -18,10 +18,14 @@ C18_FileFiltersCover(o) == \A b \in 1..Len(o.blocks) : o.blocks[b].missf = 0
 \* (C11, seen here as well: what was stored is what was sent, merges included)
 C11_BagUnchanged(o) == o.stored = o.wanted /\ \A b \in 1..Len(o.blocks) : o.blocks[b].unknown = 0
 C11_MergeSucceeds(o) == o.merge_ok
+\* entry probes (as in SearchMonitor.tla): the one-leaf query for an entry a filter denied must still return every stored row carrying it
+C01_EntryProbesComplete(o) == o.probe_lost = 0
+C11_EntryProbesAfterMerge(o) == o.merges > 0 => o.probe_lost = 0
 C27_Silent(o) == o.stdio = 0
 
 Props(o) ==
   [ C18_BlockFiltersCover |-> C18_BlockFiltersCover(o), C18_FileFiltersCover |-> C18_FileFiltersCover(o),
+    C01_EntryProbesComplete |-> C01_EntryProbesComplete(o), C11_EntryProbesAfterMerge |-> C11_EntryProbesAfterMerge(o),
     C11_BagUnchanged |-> C11_BagUnchanged(o), C11_MergeSucceeds |-> C11_MergeSucceeds(o), C27_Silent |-> C27_Silent(o) ]
 
 Init == l = 1 /\ viol = {}
